@@ -33,7 +33,7 @@ from ..mutate import mutate, remove_stmts, replace_expr, replace_stmt, parse_stm
 from ..rules import tainted_names, mentions
 from ..rx import Rx, module_pattern
 from ..x_secflow import (Reach, Escapes, is_unpack, strip_wrappers, same, parsed_facts, fact_geq0, equality_fact,
-                         tests_reaching, names_of, edge_dominates)
+                         tests_reaching, names_of, edge_dominates, absent_or_unknown, own_nodes)
 
 TECHNIQUE = "must-pass-through (guard dominance) on the CFG with reaching-definition expansion, exception-escape analysis against a frozen raise model, encoder/decoder role tables, regex language inclusion"
 EXPLANATION = (
@@ -53,6 +53,7 @@ LEVEL_NOTE = ("Structural necessary conditions only. Trusted base: hmac/hashlib/
               "without lone surrogates; logging calls do not raise; caller-supplied clock() does not raise; config errors (min_version > 2) excluded.")
 
 W = "tornado/web.py"
+CODEC_WRAPPERS_ = ("utf8", "native_str", "to_unicode", "to_basestring", "str", "bytes")
 SIGNERS = ("_create_signature_v1", "_create_signature_v2")
 CONFIG_PARAMS = {"secret", "name", "max_age_days", "clock", "min_version", "self", "cls", "key_version", "version"}
 ANALYSED = (
@@ -78,11 +79,55 @@ def nonnull_returns(fi):
     return [n for n in ret_nodes(fi) if n.ast.value is not None and not (isinstance(n.ast.value, ast.Constant) and n.ast.value.value is None)]
 
 
+def _is_func_call(e):
+    return isinstance(e, ast.Call) and isinstance(e.func, ast.Name) and e.func.id not in ("__unpack__",)
+
+
+def canon_elems(e):
+    """One canonical form for 'element i of a sequence': ``S[i]`` for a sequence value
+    (``x.split(..)``, a local list), ``__unpack__(f(..), i, n)`` for the tuple returned by a
+    function call - whichever way (index or tuple unpacking) the code took it."""
+
+    class T(ast.NodeTransformer):
+        def visit_Call(self, node):
+            self.generic_visit(node)
+            u = is_unpack(node)
+            if u is not None and not _is_func_call(u[0]):
+                return ast.Subscript(value=u[0], slice=ast.Constant(value=u[1]), ctx=ast.Load())
+            return node
+
+        def visit_Subscript(self, node):
+            self.generic_visit(node)
+            if isinstance(node.slice, ast.Constant) and isinstance(node.slice.value, int) and not isinstance(node.slice.value, bool) and node.slice.value >= 0 and _is_func_call(node.value) and isinstance(node.ctx, ast.Load):
+                return ast.Call(func=ast.Name(id="__unpack__", ctx=ast.Load()), args=[node.value, ast.Constant(value=node.slice.value), ast.Constant(value=None)], keywords=[])
+            return node
+
+    import copy
+
+    return T().visit(copy.deepcopy(e))
+
+
+def elem(e):
+    """(source, index, arity|None) for either canonical element form."""
+    e = strip_wrappers(e)
+    u = is_unpack(e)
+    if u is not None:
+        return u
+    if isinstance(e, ast.Subscript) and isinstance(e.slice, ast.Constant) and isinstance(e.slice.value, int) and not isinstance(e.slice.value, bool):
+        return e.value, e.slice.value, None
+    return None
+
+
+class CReach(Reach):
+    def expand(self, expr, at, depth=16, _stack=()):
+        return canon_elems(Reach.expand(self, expr, at, depth, _stack))
+
+
 class Ctx:
     def __init__(self, ck, fi):
         self.ck = ck
         self.fi = fi
-        self.rd = Reach(fi)
+        self.rd = CReach(fi)
         self.facts = must_facts(fi.cfg)
 
     def xfacts(self, node):
@@ -167,6 +212,35 @@ def mac_fact(cx: Ctx, node):
     return None
 
 
+def recognised_compares(cx):
+    """Nodes holding a comparison the recogniser fully understands (compare_digest / == as a test or
+    as the value of a boolean local) or the computation of the expected signature itself."""
+    out = set()
+    for n in cx.fi.cfg.stmt_nodes():
+        from ..x_secflow import node_exprs
+
+        for e in node_exprs(n):
+            E = strip_wrappers(cx.rd.expand(e, n))
+            if is_signer_call(E):
+                out.add(n.id)  # expected = signer(...)
+            if isinstance(E, ast.Call) and q.call_attr(E) == "compare_digest" and len(E.args) == 2:
+                out.add(n.id)
+            if isinstance(E, ast.Compare) and len(E.ops) == 1 and isinstance(E.ops[0], (ast.Eq, ast.NotEq)):
+                out.add(n.id)
+    return out
+
+
+def weak_mac_test(cx, r):
+    """A recognised but insufficient comparison with the signer's output (prefix / substring / truncated)."""
+    for n in cx.fi.cfg.stmt_nodes(lambda n: n.kind == "test"):
+        E = cx.rd.expand(n.ast, n)
+        if isinstance(E, ast.Call) and isinstance(E.func, ast.Attribute) and E.func.attr in ("startswith", "endswith", "find", "count") and any(is_signer_call(x) for x in ast.walk(E)):
+            return q.unparse(n.ast)
+        if isinstance(E, ast.Compare) and any(isinstance(o, (ast.In, ast.NotIn)) for o in E.ops) and any(is_signer_call(x) for x in ast.walk(E)):
+            return q.unparse(n.ast)
+    return None
+
+
 def compare_sites(fi):
     return [c for c in q.calls(fi.node) if q.call_attr(c) == "compare_digest"]
 
@@ -178,6 +252,11 @@ def check_mac_gate(ck, cx: Ctx):
     macs = []
     for r in rets:
         m = mac_fact(cx, r)
+        if m is None:
+            weak = weak_mac_test(cx, r)
+            if weak is None:
+                absent_or_unknown(cx.rd, r, lambda E: any(is_signer_call(x) for x in ast.walk(E)) or any(isinstance(x, ast.Call) and q.call_attr(x) == "compare_digest" for x in ast.walk(E)),
+                                  recognised_compares(cx), "the MAC comparison")
         ck.ob("C23.mac-gate", fi, r.ast, m is not None,
               "return of a value is dominated by the success branch of the MAC comparison (signer output vs. parsed signature)%s" % (": " + m.text if m else ""))
         if m is None:
@@ -188,8 +267,7 @@ def check_mac_gate(ck, cx: Ctx):
         ck.ob("C23.mac-gate", fi, r.ast, key_ok, "the expected signature is computed by %s with the secret as key" % m.signer, construct="key of " + q.unparse(m.call)[:120])
         passed_ok = "value" in names_of(m.passed) and not any(is_signer_call(x) for x in ast.walk(m.passed))
         ck.ob("C23.mac-gate", fi, r.ast, passed_ok, "the compared signature is parsed from the input value (not recomputed)", construct="passed " + q.unparse(m.passed)[:120])
-        sp = strip_wrappers(m.passed)
-        verbatim = is_unpack(sp) is not None or (isinstance(sp, ast.Subscript) and isinstance(sp.slice, ast.Constant))
+        verbatim = elem(m.passed) is not None
         ck.ob("C23.mac-gate", fi, r.ast, verbatim, "the compared signature is one field of the input taken verbatim (no case folding, stripping or slicing, so every edit of it is noticed)", construct="verbatim " + q.unparse(m.passed)[:120])
         if m.mode is None:
             raise AnalysisError("%s: MAC input %s is in no recognised shape (argument list or prefix of the parsed buffer)" % (fi.qualname, q.unparse(m.call)))
@@ -210,6 +288,8 @@ def payload_of(cx, r):
 
 def check_payload(ck, cx, r, m):
     P, codec = payload_of(cx, r)
+    if not m.covers(P) and elem(P) is None and any(isinstance(x, ast.Call) and isinstance(x.func, ast.Name) and x.func.id not in ("__unpack__", "utf8", "bytes", "str") for x in ast.walk(P)):
+        raise AnalysisError("%s: the returned value %s goes through a helper the rule does not understand" % (cx.fi.qualname, q.unparse(P)[:80]))
     ck.ob("C23.mac-covers", cx.fi, r.ast, m.covers(P), "the returned payload %s is part of the MAC input (%s mode)" % (q.unparse(P)[:80], m.mode))
     return P, codec
 
@@ -229,6 +309,12 @@ def check_name(ck, cx, r, m):
             if isinstance(sa, ast.Name) and sa.id == "name" and m.covers(b):
                 ck.ob("C23.name-bound", fi, r.ast, True, "return dominated by equality of the authenticated name field with the name parameter: " + text)
                 return b
+    rec = set()
+    for n in fi.cfg.stmt_nodes(lambda n: n.kind == "test"):
+        E = cx.rd.expand(n.ast, n)
+        if equality_fact(E, True) is not None or (isinstance(E, ast.Call) and isinstance(E.func, ast.Attribute) and E.func.attr in ("startswith", "endswith")):
+            rec.add(n.id)  # understood: an (in)equality / prefix test - if it were the binding it would have matched above
+    absent_or_unknown(cx.rd, r, lambda E: any(isinstance(x, ast.Name) and x.id == "name" for x in ast.walk(E)) and not any(is_signer_call(x) for x in ast.walk(E)), rec, "the name binding")
     ck.ob("C23.name-bound", fi, r.ast, False, "return of a value is dominated by the comparison of the authenticated name field with the name parameter", construct="name test before " + q.unparse(r.ast)[:80])
     return None
 
@@ -261,9 +347,20 @@ def time_facts(cx, r, m):
         if g is None:
             continue
         coefs, const, strict, atoms = g
+        if "__floor__" not in atoms:
+            # a rounded age may also sit in a local: look one definition deeper
+            g2 = fact_geq0(cx.rd.expand(e, r), pol)
+            if g2 is not None and "__floor__" in g2[3]:
+                coefs, const, strict, atoms = g2
         roles = classify_time_atoms(cx, r, {t: atoms[t] for t in coefs}, m)
         if any(v is None for v in roles.values()):
-            continue
+            g2 = fact_geq0(cx.rd.expand(e, r), pol)
+            if g2 is None:
+                continue
+            coefs, const, strict, atoms = g2
+            roles = classify_time_atoms(cx, r, {t: atoms[t] for t in coefs}, m)
+            if any(v is None for v in roles.values()):
+                continue
         by = {}
         ts_op = None
         for t, (role, extra) in roles.items():
@@ -271,24 +368,49 @@ def time_facts(cx, r, m):
             if role == "ts":
                 ts_op = extra
         if "ts" in by and "clock" in by:
-            out.append((by["ts"], by["clock"], by.get("age", 0), const, ts_op, text))
+            out.append((by["ts"], by["clock"], by.get("age", 0), const, ts_op, text + (" [rounded down with //]" if "__floor__" in atoms else "")))
+    return out
+
+
+def _mentions_clock_call(E, params):
+    return any(isinstance(x, ast.Call) and not x.args and ((isinstance(x.func, ast.Name) and base_id(x.func) in params) or q.dotted(x.func) == "time.time") for x in ast.walk(E))
+
+
+def time_test_nodes(cx, m, r):
+    """ids of test nodes that parse as linear order facts over (timestamp, clock[, age])."""
+    out = set()
+    for n in cx.fi.cfg.stmt_nodes(lambda n: n.kind == "test"):
+        g = fact_geq0(n.ast, True)
+        if g is None:
+            continue
+        coefs, _c, _s, atoms = g
+        roles = classify_time_atoms(cx, n, {t: atoms[t] for t in coefs}, m)
+        if roles and all(v is not None for v in roles.values()):
+            out.add(n.id)
     return out
 
 
 def check_expiry(ck, cx, r, m):
     fi = cx.fi
     found = None
+    wrong = None
     for cts, cclk, cage, const, ts_op, text in time_facts(cx, r, m):
         # ts - clock + 86400*age >= 0
         if cts > 0 and cclk == -cts and cage > 0:
             found = (cts, cage, const, ts_op, text)
             break
-    ck.ob("C23.expiry", fi, r.ast, found is not None, "return of a value is dominated by 'timestamp >= clock() - max_age_days * 86400' (any equivalent arrangement)%s" % (": " + found[4] if found else ""),
+        if cage != 0:
+            wrong = text
+    if found is None and wrong is None:
+        params = set(fi.params())
+        absent_or_unknown(cx.rd, r, lambda E: _mentions_clock_call(E, params) and any(isinstance(x, ast.Name) and x.id == "max_age_days" for x in ast.walk(E)), time_test_nodes(cx, m, r), "the expiry test")
+    ck.ob("C23.expiry", fi, r.ast, found is not None, "return of a value is dominated by 'timestamp >= clock() - max_age_days * 86400' (any equivalent arrangement)%s" % (": " + found[4] if found else ("; found with the wrong orientation: " + wrong if wrong else "")),
           construct="expiry test before " + q.unparse(r.ast)[:80])
     if not found:
         return None
     cts, cage, const, ts_op, text = found
-    ck.ob("C23.expiry", fi, r.ast, cage == 86400 * cts and const == 0, "the age bound is max_age_days in days (x 86400 s), no slack constant: " + text, construct="scale of " + text)
+    ck.ob("C23.expiry", fi, r.ast, abs(cage - 86400 * cts) <= 1e-9 * abs(cage) and const == 0, "the age bound is max_age_days in days (x 86400 s), no slack constant: " + text, construct="scale of " + text)
+    ck.ob("C23.expiry", fi, r.ast, "[rounded down" not in text, "the age is compared exactly, not after rounding down to whole units (a floored age keeps a value valid up to one unit longer and rounds fractional max_age_days up)", construct="exact comparison")
     ck.ob("C23.mac-covers", fi, r.ast, m.covers(ts_op), "the timestamp that is compared (%s) is part of the MAC input" % q.unparse(ts_op)[:80], construct="timestamp " + q.unparse(ts_op)[:100])
     return ts_op
 
@@ -301,6 +423,9 @@ def check_v1_delimiter(ck, cx, r, m, ts_op):
     for cts, cclk, cage, const, op, text in time_facts(cx, r, m):
         if cts < 0 and cclk == -cts and cage == 0 and 0 < const / cclk <= 100 * 366 * 86400:
             fut = text
+    if fut is None:
+        params = set(fi.params())
+        absent_or_unknown(cx.rd, r, lambda E: _mentions_clock_call(E, params) and not any(isinstance(x, ast.Name) and x.id == "max_age_days" for x in ast.walk(E)), time_test_nodes(cx, m, r), "the upper timestamp bound")
     ck.ob("C23.v1-digit-shift", fi, r.ast, fut is not None, "undelimited MAC: return dominated by an upper bound 'timestamp <= clock() + const' with const below 100 years (one shifted digit multiplies the timestamp by >= 10; digits moved from the payload into the timestamp)%s" % (": " + fut if fut else ""),
           construct="future bound before " + q.unparse(r.ast)[:80])
     lead = False
@@ -315,6 +440,16 @@ def check_v1_delimiter(ck, cx, r, m, ts_op):
                 if isinstance(b, ast.Constant) and b.value in (b"0", "0") and isinstance(a, ast.Subscript) and isinstance(a.slice, ast.Slice) and a.slice.lower is None and a.slice.step is None \
                         and isinstance(a.slice.upper, ast.Constant) and a.slice.upper.value == 1 and same(strip_wrappers(a.value), strip_wrappers(ts_op)):
                     lead = True
+    if not lead and ts_op is not None:
+        tsd = ast.dump(strip_wrappers(ts_op))
+        bad_idx = set()
+        for n in fi.cfg.stmt_nodes(lambda n: n.kind == "test"):
+            eqn = equality_fact(cx.rd.expand(n.ast, n), True)
+            if eqn:
+                for a, b in ((eqn[0], eqn[1]), (eqn[1], eqn[0])):
+                    if isinstance(b, ast.Constant) and isinstance(b.value, (bytes, str)) and isinstance(a, ast.Subscript) and not isinstance(a.slice, ast.Slice) and ast.dump(strip_wrappers(a.value)) == tsd:
+                        bad_idx.add(n.id)  # understood and insufficient: indexing bytes yields an int, never equal to b"0"
+        absent_or_unknown(cx.rd, r, lambda E: any(ast.dump(x) == tsd for x in ast.walk(E)) and any(isinstance(x, ast.Constant) and x.value in (b"0", "0", 48) for x in ast.walk(E)), bad_idx, "the leading-zero rejection")
     ck.ob("C23.v1-digit-shift", fi, r.ast, lead, "undelimited MAC: return dominated by rejection of a timestamp with a leading '0' (zero digits moved from the payload)",
           construct="leading-zero test before " + q.unparse(r.ast)[:80])
 
@@ -361,6 +496,12 @@ def check_entry(ck, dec, decoder_signer, sv):
             if len(v) == 1 and len(mn) == 1 and coefs[v[0]] > 0 and coefs[mn[0]] == -coefs[v[0]] and ((not strict and const == 0) or (strict and const == coefs[v[0]])):
                 floor = text
                 ver_expr = cx.rd.expand(atoms[v[0]], r)
+        if floor is None:
+            rec = set()
+            for n in dec.cfg.stmt_nodes(lambda n: n.kind == "test"):
+                if fact_geq0(n.ast, True) is not None or equality_fact(n.ast, True) is not None:
+                    rec.add(n.id)  # an order / equality test the rule parses; had it been the floor it would have matched
+            absent_or_unknown(cx.rd, r, lambda E: any(isinstance(x, ast.Name) and base_id(x) == "min_version" for x in ast.walk(E)) and any(_is_version_expr(x) for x in ast.walk(E)), rec, "the min_version floor")
         ck.ob("C23.version-floor", dec, r.ast, floor is not None, "decoder result returned only when version >= min_version holds on every path%s" % (": " + floor if floor else ""),
               construct="floor before " + q.unparse(r.ast)[:80])
         # dispatch
@@ -373,6 +514,9 @@ def check_entry(ck, dec, decoder_signer, sv):
                     if _is_version_expr(a) and isinstance(b, ast.Constant):
                         got = b.value
                         ver_expr = ver_expr or a
+        if got is None:
+            rec = {n.id for n in dec.cfg.stmt_nodes(lambda n: n.kind == "test") if fact_geq0(n.ast, True) is not None or equality_fact(n.ast, True) is not None}
+            absent_or_unknown(cx.rd, r, lambda E: any(_is_version_expr(x) for x in ast.walk(E)) and not any(isinstance(x, ast.Name) and base_id(x) == "min_version" for x in ast.walk(E)) and not _is_version_expr(E), rec, "the format dispatch")
         ck.ob("C23.dispatch", dec, r.ast, want is not None and got == want, "%s (MAC by %s, written by create_signed_value for version %s) is called only under version == %s" % (E.func.id, decoder_signer[E.func.id], want, want),
               construct="dispatch of " + E.func.id)
         # same buffer
@@ -431,6 +575,8 @@ def check_pass_through(ck, caller, callee):
             if not ok and p_ not in mine and isinstance(E, ast.Constant):
                 dflt = _default_of(callee, p_)
                 ok = isinstance(dflt, ast.Constant) and dflt.value == E.value and type(dflt.value) is type(E.value)  # explicit default
+            if not ok and not (isinstance(E, ast.Constant) or (isinstance(E, ast.Name) and (base_id(E) in mine or base_id(E) in cparams))):
+                raise AnalysisError("%s: cannot establish what %s receives for '%s' (%s)" % (caller.qualname, callee.name, p_, q.unparse(E)[:60]))
             ck.ob("C23.pass-through", caller, c, ok, "%s(...) receives the caller's own '%s' for its parameter '%s' (got %s)" % (callee.name, p_, p_, q.unparse(E)[:60]), construct="%s(%s=...)" % (callee.name, p_))
         for p_ in cparams:
             if p_ not in given and p_ in mine:
@@ -443,14 +589,13 @@ def check_pass_through(ck, caller, callee):
 
 
 def classify_enc_elt(enc, e):
-    nested = {f.name for f in enc_nested(enc)}
     formatted = False
     if isinstance(e, ast.Constant):
         return ("const", e.value, False)
     if is_signer_call(e):
         return ("sig", e, False)
-    if isinstance(e, ast.Call) and isinstance(e.func, ast.Name) and e.func.id in nested and len(e.args) == 1:
-        formatted = True
+    if isinstance(e, ast.Call) and isinstance(e.func, ast.Name) and formatter_func(enc, e.func.id) is not None and len(e.args) == 1 and not e.keywords:
+        formatted = e.func.id
         e = e.args[0]
     s = strip_wrappers(e)
     if isinstance(s, ast.Name) and s.id == "name":
@@ -465,6 +610,18 @@ def classify_enc_elt(enc, e):
 
 
 _NESTED = {}
+
+
+def formatter_func(enc, name):
+    """FuncInfo of a one-argument helper of the encoder (nested in it or at module level) used to format a field."""
+    if name in SIGNERS or name in CODEC_WRAPPERS_ or name == "__unpack__":
+        return None
+    m = enc.module
+    fi = m.funcs.get(enc.qualname + ".<locals>." + name) or m.funcs.get(name)
+    if fi is None:
+        return None
+    ps = [p for p in fi.params()]
+    return fi if len(ps) == 1 else None
 
 
 def enc_nested(enc):
@@ -525,9 +682,9 @@ def encoder_tables(ck, enc):
 
 
 def subscript_index(e):
-    e = strip_wrappers(e)
-    if isinstance(e, ast.Subscript) and isinstance(e.slice, ast.Constant) and isinstance(e.slice.value, int):
-        return e.slice.value, e.value
+    el = elem(e)
+    if el is not None and not _is_func_call(el[0]):
+        return el[1], el[0]
     return None
 
 
@@ -676,7 +833,7 @@ def _chain(e):
     return d + 1, k, root, src.func.id
 
 
-def check_consumer(ck, cons, enc):
+def check_consumer(ck, cons, enc, tabs):
     """_consume_field is the inverse of the encoder's length-prefix formatter."""
     cx = Ctx(ck, cons)
     p = [x for x in cons.params()][0]
@@ -692,7 +849,7 @@ def check_consumer(ck, cons, enc):
         ok = ok and isinstance(rest, ast.Subscript) and isinstance(rest.slice, ast.Slice) and rest.slice.upper is None and same(rest.value, body) and isinstance(rest.slice.lower, ast.BinOp) \
             and isinstance(rest.slice.lower.op, ast.Add) and same(rest.slice.lower.left, n) and isinstance(rest.slice.lower.right, ast.Constant) and rest.slice.lower.right.value == 1
         if ok:
-            ub, un = is_unpack(body), is_unpack(n.args[0])
+            ub, un = elem(body), elem(n.args[0])
             ok = ub is not None and un is not None and same(ub[0], un[0]) and ub[1] == 2 and un[1] == 0 and isinstance(ub[0], ast.Call) and q.call_attr(ub[0]) == "partition" \
                 and isinstance(ub[0].args[0], ast.Constant) and ub[0].args[0].value in (b":", ":") and isinstance(ub[0].func.value, ast.Name) and ub[0].func.value.id == p
         ck.ob("C23.fields-agree", cons, r.ast, bool(ok), "a field is the <length> bytes after the ':' and the rest starts one separator later (inverse of the encoder's '%d:' length prefix)", construct="length-prefixed field")
@@ -709,68 +866,145 @@ def check_consumer(ck, cons, enc):
                                 and a.slice.lower is not None and same(a.slice.lower, n) and edge_dominates(cons.cfg, t, "true" if pol else "false", r):
                             sepok = True
         ck.ob("C23.fields-agree", cons, r.ast, sepok, "the byte after each field is verified to be the separator on every path that accepts the field", construct="separator check")
-    # encoder side
-    fmts = enc_nested(enc)
-    ck.need(len(fmts) >= 1, "create_signed_value: no nested field formatter")
-    for f in fmts:
+    # encoder side: every helper the encoder formats a field with
+    names = sorted({f for t in tabs.values() for f in t.get("formatted", []) if f})
+    ck.need(len(names) >= 1, "create_signed_value: the length-prefixed fields are not written through a helper the rule recognises")
+    for nm in names:
+        fi = formatter_func(enc, nm)
+        f = fi.node
         ps = [a.arg for a in f.args.args]
         okf = False
-        for x in ast.walk(f):
+        for x in own_nodes(f):
             if isinstance(x, ast.Return) and x.value is not None:
                 has_len = any(isinstance(y, ast.Call) and isinstance(y.func, ast.Name) and y.func.id == "len" and len(y.args) == 1 and isinstance(y.args[0], ast.Name) and y.args[0].id == ps[0] for y in ast.walk(x.value))
                 has_fmt = any(isinstance(y, ast.Constant) and y.value in ("%d:", b"%d:") for y in ast.walk(x.value))
                 okf = has_len and has_fmt and isinstance(x.value, ast.BinOp) and isinstance(x.value.op, ast.Add) and isinstance(strip_wrappers(x.value.right), ast.Name) and strip_wrappers(x.value.right).id == ps[0]
-        fi = enc.module.funcs[enc.qualname + ".<locals>." + f.name]
-        ck.ob("C23.fields-agree", fi, f, okf, "the field formatter writes '<len(s)>:' followed by s", construct="length prefix")
+        if not okf:
+            raise AnalysisError("%s: field formatter in a shape the rule does not understand" % fi.qualname)
+        ck.ob("C23.fields-agree", ck.use(fi), f, okf, "the field formatter writes '<len(s)>:' followed by s", construct="length prefix")
 
 
 # ---------------------------------------------------------------------------
 # signers
 
 
+LOSSY_ATTRS = {"strip", "lstrip", "rstrip", "lower", "upper", "replace", "split", "title", "casefold"}
+
+
+def _peel_bytes(e):
+    """utf8(x) / x.encode() / x.encode('utf-8') -> x"""
+    while True:
+        e2 = strip_wrappers(e)
+        if isinstance(e2, ast.Call) and isinstance(e2.func, ast.Attribute) and e2.func.attr == "encode" and len(e2.args) <= 1 and not e2.keywords \
+                and (not e2.args or (isinstance(e2.args[0], ast.Constant) and str(e2.args[0].value).lower().replace("-", "") == "utf8")):
+            e2 = e2.func.value
+        if e2 is e:
+            return e
+        e = e2
+
+
+def _feed_of(e, params, loopvars):
+    """What an expression handed to the MAC carries: ('whole', param) | ('lossy', param) | ('unknown', None)"""
+    s = _peel_bytes(e)
+    if isinstance(s, ast.Name):
+        if s.id in params:
+            return ("whole", s.id)
+        if s.id in loopvars:
+            return loopvars[s.id]
+        return ("unknown", None)
+    names = {x.id for x in ast.walk(s) if isinstance(x, ast.Name)}
+    hit = [n for n in names if n in params or n in loopvars]
+    if hit and (isinstance(s, ast.Subscript) or (isinstance(s, ast.Call) and isinstance(s.func, ast.Attribute) and s.func.attr in LOSSY_ATTRS)):
+        p_ = hit[0] if hit[0] in params else loopvars[hit[0]][1]
+        return ("lossy", p_)
+    # b"".join(utf8(p) for p in PARAM)
+    if isinstance(s, ast.Call) and isinstance(s.func, ast.Attribute) and s.func.attr == "join" and isinstance(s.func.value, ast.Constant) and s.func.value.value in (b"", "") and len(s.args) == 1 \
+            and isinstance(s.args[0], (ast.GeneratorExp, ast.ListComp)) and len(s.args[0].generators) == 1 and not s.args[0].generators[0].ifs:
+        g = s.args[0].generators[0]
+        if isinstance(g.target, ast.Name):
+            src = _iter_source(g.iter, params)
+            if src is not None:
+                inner = _feed_of(s.args[0].elt, params, {g.target.id: src})
+                return inner
+    return ("unknown", None)
+
+
+def _iter_source(it, params):
+    if isinstance(it, ast.Name) and it.id in params:
+        return ("whole", it.id)
+    if isinstance(it, ast.Subscript) and isinstance(it.value, ast.Name) and it.value.id in params:
+        return ("lossy", it.value.id)
+    return None
+
+
 def check_signer(ck, fi):
     cx = Ctx(ck, fi)
     params = fi.params()
     key = params[0]
-    a = fi.node.args
+    data = list(params[1:])
     rets = nonnull_returns(fi)
     ck.floor("C23.sig-keyed", len(rets), 1, "returns of " + fi.qualname)
     for r in rets:
-        E = strip_wrappers(cx.rd.expand(r.ast.value, r))
-        ok = isinstance(E, ast.Call) and isinstance(E.func, ast.Attribute) and E.func.attr in ("hexdigest", "digest") and isinstance(E.func.value, ast.Call) and q.dotted(E.func.value.func) == "hmac.new"
-        h = E.func.value if ok else None
-        ck.ob("C23.sig-keyed", fi, r.ast, ok, "the signature is the digest of an hmac.new(...) object")
-        if not ok:
+        E = _peel_bytes(cx.rd.expand(r.ast.value, r))
+        h = None
+        fed, lossy, unknown = set(), set(), []
+        if isinstance(E, ast.Call) and isinstance(E.func, ast.Attribute) and E.func.attr in ("hexdigest", "digest") and isinstance(E.func.value, ast.Call) and q.dotted(E.func.value.func) == "hmac.new":
+            h = E.func.value
+            karg, marg, darg = q.arg(h, 0, "key"), q.arg(h, 1, "msg"), q.arg(h, 2, "digestmod")
+        elif isinstance(E, ast.Call) and isinstance(E.func, ast.Attribute) and E.func.attr == "hex" and isinstance(E.func.value, ast.Call) and q.dotted(E.func.value.func) == "hmac.digest":
+            h = E.func.value
+            karg, marg, darg = q.arg(h, 0, "key"), q.arg(h, 1, "msg"), q.arg(h, 2, "digest")
+        else:
+            unkeyed = any(isinstance(x, ast.Call) and (q.dotted(x.func) or "").startswith("hashlib.") for x in ast.walk(E)) and not any(isinstance(x, ast.Call) and (q.dotted(x.func) or "").startswith("hmac.") for x in own_nodes(fi.node))
+            if not unkeyed:
+                raise AnalysisError("%s: the signature %s is computed in a way the rule does not understand" % (fi.qualname, q.unparse(E)[:80]))
+            ck.ob("C23.sig-keyed", fi, r.ast, False, "the signature is an HMAC keyed by the secret, not a plain hash")
             continue
-        karg = q.arg(h, 0, "key")
-        ck.ob("C23.sig-keyed", fi, r.ast, karg is not None and isinstance(strip_wrappers(karg), ast.Name) and strip_wrappers(karg).id == key and q.kwarg(h, "digestmod") is not None and q.arg(h, 1, "msg") is None,
-              "the HMAC key is the %s parameter; digestmod given; no other initial message" % key, construct="hmac key")
-        # the local holding the hmac object
+        ck.ob("C23.sig-keyed", fi, r.ast, True, "the signature is the digest of an hmac object")
+        ks = _peel_bytes(karg) if karg is not None else None
+        if ks is None or not isinstance(ks, ast.Name) and any(isinstance(x, ast.Call) and isinstance(x.func, ast.Name) and x.func.id not in CODEC_WRAPPERS_ for x in ast.walk(ks)):
+            raise AnalysisError("%s: HMAC key %s not understood" % (fi.qualname, q.unparse(karg) if karg is not None else None))
+        ck.ob("C23.sig-keyed", fi, r.ast, isinstance(ks, ast.Name) and ks.id == key and darg is not None, "the HMAC key is the whole %s parameter; a digest is given" % key, construct="hmac key")
+        if marg is not None:
+            k_, p_ = _feed_of(marg, data, {})
+            (fed if k_ == "whole" else lossy if k_ == "lossy" else unknown).add(p_) if k_ != "unknown" else unknown.append(q.unparse(marg))
+        # updates of the local holding the hmac object
         hname = None
-        if isinstance(r.ast.value, ast.AST):
-            for x in ast.walk(r.ast.value):
-                if isinstance(x, ast.Call) and isinstance(x.func, ast.Attribute) and x.func.attr in ("hexdigest", "digest") and isinstance(x.func.value, ast.Name):
-                    hname = x.func.value.id
-        ck.need(hname is not None, "%s: hmac object is not held in a local" % fi.qualname)
-        fed = set()
-        upd = [(n, c) for n, c in fi.cfg.find(lambda x: isinstance(x, ast.Call) and isinstance(x.func, ast.Attribute) and x.func.attr == "update" and isinstance(x.func.value, ast.Name) and x.func.value.id == hname)]
-        pm = q.parent_map(fi.node)
-        dom = fi.cfg.dominators()
-        for n, c in upd:
-            if len(c.args) != 1:
-                continue
-            s = strip_wrappers(c.args[0])
-            if not isinstance(s, ast.Name):
-                continue
-            # directly a parameter, unconditionally before the return
-            loops = [x for x in q.ancestors(pm, c) if isinstance(x, (ast.For, ast.While, ast.If, ast.Try))]
-            if s.id in params and not loops and n.id in dom[r.id]:
-                fed.add(s.id)
-            elif len(loops) == 1 and isinstance(loops[0], ast.For) and isinstance(loops[0].target, ast.Name) and loops[0].target.id == s.id and isinstance(loops[0].iter, ast.Name) and loops[0].iter.id in params \
-                    and not any(isinstance(y, (ast.Break, ast.Continue, ast.Return)) for y in ast.walk(loops[0])):
-                fed.add(loops[0].iter.id)
-        data = [p for p in params[1:]]
-        ck.ob("C23.sig-keyed", fi, r.ast, set(data) <= fed, "every data parameter %s is fed, whole and unconditionally, to the HMAC (fed: %s)" % (data, sorted(fed)), construct="hmac data %s" % sorted(fed))
+        for x in ast.walk(r.ast.value):
+            if isinstance(x, ast.Call) and isinstance(x.func, ast.Attribute) and x.func.attr in ("hexdigest", "digest") and isinstance(x.func.value, ast.Name):
+                hname = x.func.value.id
+        if hname is not None:
+            pm = q.parent_map(fi.node)
+            dom = fi.cfg.dominators()
+            for n, c in fi.cfg.find(lambda x: isinstance(x, ast.Call) and isinstance(x.func, ast.Attribute) and x.func.attr == "update" and isinstance(x.func.value, ast.Name) and x.func.value.id == hname):
+                if len(c.args) != 1:
+                    unknown.append(q.unparse(c))
+                    continue
+                ctl = [x for x in q.ancestors(pm, c) if isinstance(x, (ast.For, ast.While, ast.If, ast.Try, ast.With))]
+                loopvars = {}
+                plain_loop = len(ctl) == 1 and isinstance(ctl[0], ast.For) and isinstance(ctl[0].target, ast.Name) and not ctl[0].orelse and not any(isinstance(y, (ast.Break, ast.Continue, ast.Return)) for y in ast.walk(ctl[0]))
+                if plain_loop:
+                    src = _iter_source(ctl[0].iter, data)
+                    if src is None:
+                        unknown.append(q.unparse(ctl[0].iter))
+                        continue
+                    loopvars = {ctl[0].target.id: src}
+                elif ctl or n.id not in dom[r.id]:
+                    unknown.append("conditional " + q.unparse(c))
+                    continue
+                k_, p_ = _feed_of(c.args[0], data, loopvars)
+                if k_ == "whole":
+                    fed.add(p_)
+                elif k_ == "lossy":
+                    lossy.add(p_)
+                else:
+                    unknown.append(q.unparse(c))
+        missing = [p_ for p_ in data if p_ not in fed]
+        bad = [p_ for p_ in missing if p_ in lossy or not any(isinstance(x, ast.Name) and x.id == p_ for x in own_nodes(fi.node))]
+        if missing and not bad:
+            raise AnalysisError("%s: cannot establish how %s reaches the HMAC (%s)" % (fi.qualname, missing, "; ".join(unknown)[:120]))
+        ck.ob("C23.sig-keyed", fi, r.ast, not missing, "every data parameter %s is fed, whole and unconditionally, to the HMAC (fed: %s%s)" % (data, sorted(fed), "; truncated/transformed or ignored: %s" % bad if bad else ""),
+              construct="hmac data %s" % sorted(fed))
 
 
 # ---------------------------------------------------------------------------
@@ -938,6 +1172,8 @@ def check_none_input(ck, fi):
             n += 1
             f = cx.facts[node.id]
             ok = (p_, True) in f or ("%s is None" % p_, False) in f
+            if not ok:
+                absent_or_unknown(cx.rd, node, lambda E: any(isinstance(x, ast.Name) and x.id == p_ for x in ast.walk(E)), {x.id for x in fi.cfg.stmt_nodes() if x.kind != "test"}, "the None test of '%s'" % p_)
             ck.ob("C23.exc-none", fi, uses[0], ok, "'%s' may be None (absent cookie): its first use is dominated by a test that returns None for it, so nothing raises" % p_)
     return n
 
@@ -1021,7 +1257,7 @@ def run(ck):
         cons_name = check_field_parser(ck, parser, tab2[0], arities)
         if cons_name:
             cons = ck.func(W, parser.qualname + ".<locals>." + cons_name)
-            check_consumer(ck, cons, enc)
+            check_consumer(ck, cons, enc, tabs)
         # get_signature_key_version returns the key-version position
         cxk = Ctx(ck, gkv)
         for r in nonnull_returns(gkv):
